@@ -201,6 +201,22 @@ func mutateTerm(t *rapid.T, cfg termCfg, a *term) *term {
 		nb.Set = mutateSet(t, nb.Set)
 		return nb
 	}
+	if a.Kind == tNSName && rapid.IntRange(0, 2).Draw(t, "idmut") > 0 {
+		// one id replaced, added or removed (same length in the first case: the shape on which a
+		// hand-written id-list comparison goes wrong)
+		nb := cloneTerm(a)
+		fresh := genNSNameIDs().Draw(t, "freshids")
+		switch how := rapid.IntRange(0, 2).Draw(t, "idhow"); {
+		case how == 0 && len(nb.IDs) > 0 && len(fresh) > 0:
+			nb.IDs[rapid.IntRange(0, len(nb.IDs)-1).Draw(t, "idpos")] = fresh[0]
+		case how == 1 && len(fresh) > 0:
+			nb.IDs = append(nb.IDs, fresh[0])
+		case len(nb.IDs) > 0:
+			i := rapid.IntRange(0, len(nb.IDs)-1).Draw(t, "idpos")
+			nb.IDs = append(nb.IDs[:i:i], nb.IDs[i+1:]...)
+		}
+		return nb
+	}
 	if len(a.Sources) > 0 && rapid.IntRange(0, 3).Draw(t, "srcmut") == 0 {
 		// one source's label-valued argument changed slightly
 		nb := cloneTerm(a)
